@@ -253,3 +253,25 @@ def run(ck):
           "%s at line %s empties or shrinks a bucket and leaves it in the table: the iterator dereferences begin() of an empty bucket, and a "
           "name without cookies is still 'there'" % (rem_inner[0][0].get("t"), rem_inner[0][0].get("l")))
 
+    # ---------------- R9: one way into the jar ----------------
+    ck.rule("C17-R9", "D who-may-write",
+            "cookies get into a jar through CookieJar::add only (keep-first by name and value) and leave it through removeAllCookies only: "
+            "no other member function mutates the storage -- a bulk path (merge, swap, operator[]) has its own idea of what happens to a "
+            "name that is already there, and a pair the header lists is then dropped or replaces another", 2)
+    stor = outer[0]["q"]
+    nmut = 0
+    for f in prog.funcs.values():
+        if not f.blocks or not (strip_tmpl(f.cls or "") == "Pistache::Http::CookieJar" or (f.is_lambda and strip_tmpl(prog.owner(f).cls or "") == "Pistache::Http::CookieJar")) or f.d.get("ctor"):
+            continue
+        for fld_, how, ev in lib.direct_writes(f):
+            if strip_tmpl(fld_) != strip_tmpl(stor):
+                continue
+            nmut += 1
+            ownb = prog.owner(f).base.rsplit("::", 1)[-1]
+            ok_ = ownb in ("add", "removeAllCookies", "operator=")
+            ck.ob("C17-R9", "CookieJar::%s/%s" % (ownb, how), ok_, ev.loc, f,
+                  "storage changed by %s" % ownb if ok_ else
+                  "CookieJar::%s changes the jar's storage directly (%s) instead of going through add(): what it does with a name or pair that "
+                  "is already in the jar is not add()'s keep-first" % (ownb, how))
+    ck.require(nmut >= 2, "mutations of the jar's storage found: %d" % nmut)
+
